@@ -930,6 +930,23 @@ def analyse_del_start(db, rep):
     eng.run(fn, st)
     okfree = bool(H.ends) and all(s_.get('$announce') is None or (s_.get('$announce')[1] == 1 and s_.get('G:d[0][0].mpos') == 1) for s_, _ in H.ends) and any(s_.get('$announce') is not None for s_, _ in H.ends)
     out['ds:a-slot-in-use-is-never-taken'] = (okfree, 'qmail-send.c:del_start', 'slot 0 in use, slot 1 free: the delivery must go to slot 1 and leave slot 0 alone', [])
+    # del_canexit: the daemon may leave only when no live spawner has a delivery in flight
+    dc = prog.fn('del_canexit', 'qmail-send.c')
+    badx = []
+    for alive in ((1, 1), (1, 0), (0, 1), (0, 0)):
+        for used in ((0, 0), (1, 0), (0, 1), (2, 3)):
+            H3 = DelStartHooks()
+            res = []
+            H3.on_return = lambda E, f, v, res=res: res.append(v) if f.name == 'del_canexit' else None
+            H3.materialize_split = lambda E, path: None
+            eng = Engine(db, prog, H3)
+            eng.run(dc, {'G:flagspawnalive[0]': fs(alive[0]), 'G:flagspawnalive[1]': fs(alive[1]), 'G:concurrencyused[0]': fs(used[0]), 'G:concurrencyused[1]': fs(used[1])})
+            want = 0 if any(alive[c_] and used[c_] for c_ in (0, 1)) else 1
+            got = sorted({(1 if g1v(v) else 0) if g1v(v) is not None else '?' for v in res})
+            if got != [want]:
+                badx.append((alive, used, got, want))
+    out['ds:del_canexit-iff-no-live-channel-has-a-delivery-in-flight'] = (not badx, 'qmail-send.c:del_canexit',
+        '(spawners alive, deliveries in flight per channel, result, documented): %s; leaving with a delivery in flight loses its report, and the recipient is tried again after the restart' % badx[:3], [])
     # del_avail
     da = prog.fn('del_avail', 'qmail-send.c')
     rows = []
@@ -1580,12 +1597,17 @@ class MainHooks(SendHooks):
 
     prim_pass_selprep = prim_todo_selprep = prim_cleanup_selprep = prim_comm_selprep = prim_del_selprep = _selprep
 
-    def prim_pqrun(self, E, x, args):
-        self.count('pqrun')
-        return [Outcome(ret=TOP, log='pqrun()')]
 
     def prim_reread(self, E, x, args):
+        self.site('main:HUP-flag-cleared-before-the-controls-are-re-read', x, E.get('G:flagreadasap') == fs(0),
+                  'reread() runs while flagreadasap is still set and the flag is cleared afterwards: a HUP arriving during the re-read is wiped out and the newer control files are never loaded', E, kill=False)
         return [Outcome(ret=TOP, log='reread()')]
+
+    def prim_pqrun(self, E, x, args):
+        self.count('pqrun')
+        self.site('main:ALRM-flag-cleared-before-pqrun', x, E.get('G:flagrunasap') == fs(0),
+                  'pqrun() runs while flagrunasap is still set and the flag is cleared afterwards: an ALRM arriving meanwhile is lost', E, kill=False)
+        return [Outcome(ret=TOP, log='pqrun()')]
 
     def prim_del_canexit(self, E, x, args):
         return [Outcome(ret=fs(0), sets={'$canexit': fs(0)}), Outcome(ret=fs(1), sets={'$canexit': fs(1)})]
